@@ -74,15 +74,14 @@ class Stream:
         cov["rule"] = self.rule
         cov["samples"] = [{"partition": l, "op": o} for l, o in ops[:2]] + [{"trace_line": x[:300]} for x in res["impl_lines"][:2]]
         if res["harness_rc"] != 0:
-            bad = None
-            for label, o in ops:
-                r1 = run_stream(ctx.harness, None, self.name, [(label, o)], ctx.workdir, "bisect", env=self.env)
-                if r1["harness_rc"] != 0:
-                    bad = o
-                    break
-            tie_fail.append((self.name, "harness aborted (sanitizer / assertion / crash): " + res["harness_err"][-600:],
-                             {"kind": "impl-crash", "op": bad, "stderr": res["harness_err"][-3000:],
-                              "key": f"crash:{self.name}:{bad}"} if bad else None))
+            loc = self.locate_crash(ctx, ops, res)
+            data = None
+            if loc is not None:
+                data = {"kind": "impl-crash", "stderr": res["harness_err"][-3000:]}
+                data.update(loc)
+                data["key"] = f"crash:{self.name}:" + (loc["op"] if "op" in loc else "prefix-ending-at:" + loc["ops"][-1])
+            tie_fail.append((self.name, f"harness aborted (rc={res['harness_rc']}; sanitizer / assertion / crash): "
+                             + res["harness_err"][-600:], data))
             return cov
         if res["model_rc"] != 0:
             tie_fail.append((self.name, "model driver failed: " + res["model_err"], None))
@@ -96,6 +95,34 @@ class Stream:
         cov["disagreements_checked"] = len(wrong) + len(diffs)
         return cov
 
+    def locate_crash(self, ctx, ops, res):
+        """the harness flushes its trace when it dies, so the operation that kills it is the one after the last
+        line that came out: try it (and its neighbours) alone; a stream whose operations share state is replayed
+        as the shortest failing prefix instead"""
+        import time
+        n = len(res["impl_lines"])
+        def dies(sub):
+            r1 = run_stream(ctx.harness, None, self.name, sub, ctx.workdir, "bisect", env=self.env)
+            return r1["harness_rc"] != 0
+        for i in (n, n - 1, n + 1):
+            if 0 <= i < len(ops) and dies([ops[i]]):
+                return {"op": ops[i][1]}
+        hi = min(len(ops), n + 1)
+        t0 = time.time()
+        if not dies(ops[:hi]):
+            hi = len(ops)
+            if not dies(ops):
+                return None           # not reproducible
+        if time.time() - t0 < 60:
+            lo = 0                    # ops[:lo] survives, ops[:hi] dies
+            while hi - lo > 1 and time.time() - t0 < 900:
+                mid = (lo + hi) // 2
+                if dies(ops[:mid]):
+                    hi = mid
+                else:
+                    lo = mid
+        return {"ops": [o for _, o in ops[:hi]]}
+
     def witness(self, ctx, obligations_failed, tie_fail):
         for k in range(2):
             tf = []
@@ -106,8 +133,9 @@ class Stream:
         return None
 
     def replay(self, ctx, data):
-        res = run_stream(ctx.harness, None, self.name, [("replay", data["op"])], ctx.workdir, "replay", env=self.env)
-        wrong, _, _ = analyse([("replay", data["op"])], res)
+        rops = [("replay", o) for o in (data["ops"] if "ops" in data else [data["op"]])]
+        res = run_stream(ctx.harness, None, self.name, rops, ctx.workdir, "replay", env=self.env)
+        wrong, _, _ = analyse(rops, res)
         return {"fails": bool(wrong) or res["harness_rc"] != 0, "observed": res["impl_lines"][-1:],
                 "stderr": res["harness_err"][-1500:]}
 
